@@ -29,6 +29,10 @@ func (C11) Describe() CheckInfo {
 }
 
 var c11Probes = []string{
+	// one operator inside another's scope: date layouts around the ordering operators, elements without the key
+	"with_dtf(\"2006\"; sort_by(.t))", "with_dtf(\"Jan 2\"; sort_by(.missing))", "with_dtf(\"2006-01-02\"; .. | select(kind == \"seq\") | sort_by(.k))", "with_dtf(\"Monday\"; [..] | sort_by(.a))", "with_dtf(\"2006\"; group_by(.t))", "with_dtf(\"2006\"; unique_by(.x))",
+	"with_dtf(\"2006\"; [.. | select(kind == \"map\")] | sort_by(.nope))", "with_dtf(\"15:04\"; sort)", "with_dtf(\"\"; sort_by(.a))", "with_dtf(\"2006\"; .[] |= sort_by(.v))", "with_dtf(\"2006\"; to_entries | sort_by(.value.t))", "[.. | select(kind == \"map\")] | sort_by(.nope)",
+	".. | parent", ".. | parent(9)", "parent | parent", ".[] | {\"x\": .}", "[] | .[] | {\"x\": .}", ".nope[] | {\"x\": .}", "{\"a\": .nope[]}", "[.nope[] | {(.): 1}]",
 	// a tag set by hand that disagrees with the kind of the node, then an operator or encoder that trusts tags
 	"[[1,2,3] | . tag=\"!!map\"] | pivot", "[{\"a\": 1} | . tag=\"!!seq\"] | pivot", ".. |= (. tag=\"!!map\")", "(.. | select(kind == \"seq\")) tag = \"!!map\"", "(.. | select(kind == \"map\")) tag = \"!!seq\"", "(.. | select(kind == \"scalar\")) tag = \"!!map\"",
 	"[1, 2] | . tag = \"!!map\" | keys", "[1, 2, 3] | . tag = \"!!map\" | to_entries", "{\"a\": 1} | . tag = \"!!seq\" | .[0]", "[1, 2, 3] | . tag = \"!!map\" | .[]", "[1, 2, 3] | . tag = \"!!map\" | sort_keys(.)", "[[1, 2, 3] | . tag = \"!!map\"] | unique", "[1, 2, 3] | . tag = \"!!map\" | . * {\"a\": 1}",
@@ -299,7 +303,7 @@ func (C11) Generate(c *Ctx, r *Rand, index int) *Scenario {
 	if outFmt != "auto" {
 		argv = append(argv, "-o="+outFmt)
 	}
-	for _, f := range []string{"-P", "-r", "-N", "-I0", "-I7", "-I-1", "-I=-3", "-I99", "-0", "-e", "--xml-strict-mode", "--csv-auto-parse", "--xml-keep-namespace", "--xml-raw-token", "--header-preprocess=false", "--string-interpolation=false", "--lua-globals", "--lua-unquoted", "--properties-array-brackets", "--xml-skip-directives", "--xml-skip-proc-inst", "-C"} {
+	for _, f := range []string{"-P", "-r", "-N", "-I0", "-I7", "-I-1", "-I=-3", "-I99", "-0", "-e", "--xml-strict-mode", "--csv-auto-parse", "--xml-keep-namespace", "--xml-raw-token", "--header-preprocess=false", "--string-interpolation=false", "--lua-globals", "--lua-unquoted", "--properties-array-brackets", "--xml-skip-directives", "--xml-skip-proc-inst", "-C", "-v", "--csv-auto-parse=false", "--tsv-auto-parse=false", "-M", "--unwrapScalar=false", "--xml-strict-mode=false"} {
 		if rs.Chance(1, 22) {
 			argv = append(argv, f)
 		}
@@ -307,7 +311,7 @@ func (C11) Generate(c *Ctx, r *Rand, index int) *Scenario {
 	// a flag that belongs to a format is drawn more often when that format is in use
 	for _, ff := range [][2]string{{"lua", "--lua-globals"}, {"lua", "--lua-unquoted"}, {"lua", "--lua-prefix=x = "}, {"lua", "--lua-suffix="}, {"xml", "--xml-strict-mode"}, {"xml", "--xml-keep-namespace"}, {"xml", "--xml-raw-token"},
 		{"xml", "--xml-skip-directives"}, {"xml", "--xml-skip-proc-inst"}, {"xml", "--xml-attribute-prefix="}, {"xml", "--xml-content-name="}, {"props", "--properties-array-brackets"}, {"props", "--properties-separator="},
-		{"csv", "--csv-auto-parse"}, {"csv", "--csv-separator=;"}, {"tsv", "--tsv-auto-parse"}, {"yaml", "--header-preprocess=false"}} {
+		{"csv", "--csv-auto-parse"}, {"csv", "--csv-auto-parse=false"}, {"csv", "--csv-separator=;"}, {"tsv", "--tsv-auto-parse"}, {"tsv", "--tsv-auto-parse=false"}, {"yaml", "--header-preprocess=false"}} {
 		if (ff[0] == fi.Name || ff[0] == outFmt) && rs.Chance(1, 5) && !containsArg(argv, ff[1]) {
 			argv = append(argv, ff[1])
 		}
